@@ -5,8 +5,8 @@
 void harness(void) {
   cg_init();
   Type ST = {TY_STRUCT, SZ, 1};
-  IN(uint64_t, src); IN(uint64_t, dst); IN(int, probe);
-  ASSUME(src >= 8 && src <= 100 && src + SZ <= 100 && dst >= 120 && dst <= 240 && dst + SZ <= 240);     /* two distinct objects */
+  const uint64_t src = 24, dst = 136;   /* two distinct objects at fixed places (the emitted code only uses offsets relative to them); contents symbolic */
+  IN(int, probe);
   ASSUME(0 <= probe && probe < GM_DM);
   unsigned char before = gm_dm[probe];
   unsigned char srcb = gm_dm[(probe >= (int)dst && probe < (int)dst + SZ) ? src + (probe - dst) : 0];
